@@ -518,6 +518,16 @@ func (w *MWorld) matchesDir(d *DirC, b MBlob) bool {
 	return true
 }
 
+func (w *MWorld) matching(c *Cons) []string {
+	var m []string
+	for _, b := range w.Blobs {
+		if w.Matches(c, b.Ref) {
+			m = append(m, b.Ref)
+		}
+	}
+	return m
+}
+
 // OnlyPermanodes is the documented condition under which a time sort is supported ("when the
 // query is about permanodes only"): the syntactic test of Constraint.onlyMatchesPermanode.
 func OnlyPermanodes(c *Cons) bool {
